@@ -1,3 +1,4 @@
+import Std.Data.HashMap
 import N2V.Model.Basic
 import N2V.Model.Canon
 import N2V.Model.Depfile
@@ -174,11 +175,16 @@ open Proto
 structure G where
   names : Array Bytes
   builds : List (List Nat)
+  prod : Std.HashMap Bytes Nat      -- output name -> first build listing it (an index of `builds`)
+
+def mkProd (names : Array Bytes) (builds : List (List Nat)) : Std.HashMap Bytes Nat :=
+  ((List.range builds.length).zip builds).foldl (fun m (p : Nat × List Nat) =>
+    p.2.foldl (fun m i => let n := names.getD i []; if m.contains n then m else m.insert n p.1) m) {}
 
 def gD : P G := do
   kw "names"; let ns ← counted bytes
   kw "builds"; let bs ← counted (counted nat)
-  pure ⟨ns.toArray, bs⟩
+  pure ⟨ns.toArray, bs, mkProd ns.toArray bs⟩
 
 structure Wr where
   build : Nat
@@ -191,8 +197,8 @@ def wrD : P Wr := do
 
 def G.name (g : G) (i : Nat) : Bytes := g.names.getD i []
 def G.outs (g : G) (b : Nat) : List Bytes := (g.builds.getD b []).map g.name
-def G.producer (g : G) (n : Bytes) : Option Nat :=
-  (List.range g.builds.length).find? (fun b => (g.outs b).contains n)
+/-- The first build listing `n` among its outputs (a precomputed index of the case's graph). -/
+def G.producer (g : G) (n : Bytes) : Option Nat := g.prod[n]?
 
 /-- Apply a sequence of `write_build` calls; returns the records and the final id table. -/
 def applyWrites (g : G) : List Bytes → List Wr → List Db.Rec × List Bytes
@@ -217,11 +223,33 @@ def survivors : List Db.Rec → Nat → Nat → List Db.Rec
 
 end DbDrv
 
-def handleDbw (case : List String) : String :=
+def handleDbw (case impl : List String) : String :=
   match ((do let g ← DbDrv.gD; Proto.kw "writes"; let ws ← Proto.counted DbDrv.wrD; pure (g, ws)).run case) with
   | some ((g, ws), []) =>
     let (rs, _) := DbDrv.applyWrites g [] ws
-    "ok " ++ hexOfBytes (Db.encodeLog rs)
+    -- C08 on the bytes the REAL writer produced: they parse completely, and loading them gives every
+    -- step the hash and dependency names of its last write that fits the record format
+    let readsBack := match impl with
+      | ["ok", h] =>
+        match bytesOfHex h with
+        | some bs =>
+          match Db.parse bs with
+          | .ok recs n =>
+            n == bs.length &&
+            (match Db.loadAll g.producer ⟨[], []⟩ recs with
+             | .ok st =>
+               (List.range g.builds.length).all (fun b =>
+                 let want := (ws.filter (fun w => w.build == b && decide ((g.outs b).length < 0x8000) && decide (w.deps.length < 0x10000))).getLast?
+                 match want, Db.latest st b with
+                 | none, none => true
+                 | some w, some l => l.hash == w.hash && l.deps == w.deps.map g.name
+                 | _, _ => false)
+             | _ => false)
+          | .empty => ws.all (fun w => decide ((g.outs w.build).length ≥ 0x8000) || decide (w.deps.length ≥ 0x10000)) || ws.isEmpty
+          | _ => false
+        | none => false
+      | _ => true
+    "ok " ++ hexOfBytes (Db.encodeLog rs) ++ mons [("writtenReadsBack", readsBack)]
   | _ => "bad-case"
 
 def handleDbr (case impl : List String) : String :=
@@ -478,6 +506,7 @@ structure Acc where
   cleanEq : Bool := true
   noopAfterSuccess : Bool := true
   settledAfterSuccess : Bool := true
+  checkErrorsAsPredicted : Bool := true
   nSettled : Nat := 0
   logAgrees : Bool := true
   regenFirst : Bool := true
@@ -520,6 +549,11 @@ def stepOp (acc : Acc) (op : World.Op) : Acc :=
       let wImpl : World := { fs := o.fs.map (fun t => (t.1, (⟨t.2.1, t.2.2⟩ : FileInfo))), clock := w'.clock, log := w'.log }
       let settledApplies := o.result.startsWith "ok" && !a.adopt && World.allDeclaredPresent wImpl a
       let settledOk := !settledApplies || World.settled wImpl a
+      -- C09 (a vanished discovered dependency never FAILS the build) / C02: the dirtiness check
+      -- reports an error ("input .. missing", "used generated file ..") only where the model of the
+      -- manifest rule does: a declared dirtying source that is missing, or an unordered generated file
+      let checkErr := showResult (.err "check_build_dirty")
+      let checkErrOk := o.result != checkErr || showResult res == checkErr
       -- `-t restat` starts no command
       let restat := !a.adopt || !o.trace.any (fun e => match e with | .start _ => true | _ => false)
       -- C09/C08/C02: the log the implementation left is the abstract one
@@ -572,6 +606,7 @@ def stepOp (acc : Acc) (op : World.Op) : Acc :=
                  prevInv := some (a, implOk), nInv := acc.nInv + 1, adoptSeen := acc.adoptSeen || a.adopt,
                  cleanEq := acc.cleanEq && cleanOk, noopAfterSuccess := acc.noopAfterSuccess && noop,
                  settledAfterSuccess := acc.settledAfterSuccess && settledOk,
+                 checkErrorsAsPredicted := acc.checkErrorsAsPredicted && checkErrOk,
                  nSettled := acc.nSettled + (if settledApplies && settledOk then 1 else 0),
                  logAgrees := acc.logAgrees && logOk, regenFirst := acc.regenFirst && regen,
                  reloadIffRan := acc.reloadIffRan && reloadOk,
@@ -587,7 +622,8 @@ def handleHist (case impl : List String) : String :=
     " ; ".intercalate acc.out ++ mons [("cleanEq", acc.cleanEq), ("noopAfterSuccess", acc.noopAfterSuccess),
       ("logAgrees", acc.logAgrees), ("regenFirst", acc.regenFirst), ("reloadIffRan", acc.reloadIffRan),
       ("restatRunsNothing", acc.restatRunsNothing), ("wantedFromNewText", acc.wantedFromNewText),
-      ("runSetAsPredicted", acc.runSetAsPredicted), ("settledAfterSuccess", acc.settledAfterSuccess)]
+      ("runSetAsPredicted", acc.runSetAsPredicted), ("settledAfterSuccess", acc.settledAfterSuccess),
+      ("checkErrorsAsPredicted", acc.checkErrorsAsPredicted)]
       ++ s!" @settledStates={acc.nSettled} @invocations={acc.nInv}"
   | _, _ => "bad-case"
 
@@ -774,7 +810,7 @@ def handle (case impl : List String) : String :=
       r1 ++ " || " ++ r2 ++ mons [("spellingIndependent", spellingIndep), ("loadedOrDiagnostic", diag), ("singleProducer", sp),
         ("oneNodePerLocation", onl), ("includeExtendsScope", inclOk)]
     | _ => "bad-case"
-  | "dbw" :: rest => handleDbw rest
+  | "dbw" :: rest => handleDbw rest impl
   | "dbr" :: rest => handleDbr rest impl
   | _ => "bad-op"
 
